@@ -16,3 +16,6 @@ pub fn raise_interrupt() {
 pub fn clear_interrupt() {
     crate::machine::INTERRUPT.store(false, Ordering::Relaxed);
 }
+
+/// The buffered UTF-8 character reader (C18), for driving it over a scripted `Read`.
+pub use crate::parser::char_reader::{BadUtf8Error, CharRead, CharReader};
